@@ -3,15 +3,26 @@
 spec -> code : StatsMC.tla enumerates every case of the bounded space (data x weights,
                N-by-2 inputs, clipping inputs, interpolation tables, covariance matrices)
                and runs the three mechanisms (wmedian loop, clipping iteration, searchsorted
-               index selection) as actions against the property-level definitions; every
-               enumerated case is concretised on a dyadic lattice and executed against
-               esutil.stat (all option settings).
+               index selection) as actions against the property-level definitions.  Every
+               case also carries HOW its arrays are handed to the code: one REPRESENTATION
+               per array argument (float64 / non-native byte order / float32 / signed and
+               unsigned integers / python list / strided, reversed and read-only views) and
+               the LATTICE the abstract integers are mapped to, value = (x + OFF) * unit with
+               a dyadic unit - six small lattices and five with |OFF| from 10^8 to 2^40 (data
+               whose offset is huge relative to their scatter: time stamps, coordinates).
+               The (representation, lattice) tuples are the rows of a strength-2 orthogonal
+               array spread over all cases by a hash, and a few data sets are run under every
+               row (thorough tier: the full product).  Every enumerated case is concretised
+               accordingly and executed against esutil.stat (all option settings).
 code -> spec : what the real code returned - for sigma_clip the whole iteration, re-observed
                through the public call with niter = 0..k - is written as ndjson and judged by
                StatsTrace.tla (SFailing of Stats.tla); larger seeded cases go the same way.
 Python never judges a result: it maps abstract <-> concrete, projects observed floats onto
-lattice rationals (vh.ratproj) and records.
+lattice rationals / intervals (vh.ratproj, `lreal` below) and records.
 """
+import copy
+import json
+import math
 import random
 import warnings
 from fractions import Fraction as Fr
@@ -21,16 +32,31 @@ import numpy as np
 from .. import tracecheck
 from ..core import MachineryError
 from ..par import pmap
-from ..ratproj import real, rat, need_den
+from ..ratproj import real, rat, need_den, RELTOL, OFF as R_OFF, NAN as R_NAN
 from ..tlc import cfg
 
 NEEDS_EXT = True          # `import esutil` needs the compiled sub-packages
 
-# lattice concretisations: value = (x + off) * unit, weight = w * wunit  (unit, wunit dyadic)
-CONC = [
-    (1.0, 0, 1.0, "f8"), (0.5, -3, 0.25, "f8"), (4.0, 2, 8.0, "f8"), (2.0 ** -10, 0, 2.0 ** -3, "f8"),
-    (1, 0, 1, "i8"), (8.0, -6, 1.0, "f8"), (1.0, 5, 2.0 ** 10, "f8"), (1, -2, 1, "i8"),
-]
+# ---- lattices: value = (x + off) * unit, weight = w * wunit (unit, wunit dyadic) -----------------------
+# The NAMES and their attributes (integral / non-negative / large offset / ...) are declared in StatsMC.tla
+# (LatSeq); the numbers live here and are verified against the declared attributes (check_tables).
+LATNUM = {
+    "unit": (Fr(1), 0, Fr(1)), "half-3": (Fr(1, 2), -3, Fr(1, 4)), "x4+2": (Fr(4), 2, Fr(8)),
+    "fine": (Fr(1, 1024), 0, Fr(1, 8)), "x8-6": (Fr(8), -6, Fr(1)), "w1024": (Fr(1), 5, Fr(1024)),
+    # large offsets: every value is still exactly representable, differences of data are exact, so the exact
+    # expectations of Stats.tla (computed on the un-offset integers) are unchanged: value-type outputs are shifted
+    # back by the projection, deviation-type outputs are shift invariant
+    "big40": (Fr(1), 2 ** 40, Fr(1)), "stamp1e9": (Fr(1), 10 ** 9, Fr(1, 2)), "bigfrac33": (Fr(1, 64), 2 ** 33 + 5, Fr(1)),
+    "bigneg37": (Fr(4), -(2 ** 37), Fr(8)), "big1e8": (Fr(1), 10 ** 8 + 1, Fr(2)),
+}
+XMAX = 60                 # abstract data / query points stay within -4..XMAX (asserted)
+BIGOFF = 10 ** 8
+RELTOL4 = 16 * Fr(1, 2 ** 23)         # "to rounding" for float32 input: 16 ulp of float32
+INT31 = 2 ** 31 - 1
+IVL_KMAX = 256
+DTYPE = {"f8": "<f8", "f8be": ">f8", "f4": "<f4", "i8": "<i8", "i4be": ">i4", "u2": "<u2", "u8": "<u8"}
+KIND = {"f8": "f8", "f8be": "f8", "strided": "f8", "reversed": "f8", "readonly": "f8", "f4": "f4",
+        "i8": "int", "i4be": "int", "u2": "uint", "u8": "uint", "list": "list"}
 NITER = 4
 
 BOUNDS = {
@@ -47,33 +73,100 @@ BOUNDS = {
 }
 INVARIANTS = ["DefsAgree", "MomentsSane", "MedSafe", "MedRefines", "ClipRefines", "ClipNonEmpty", "ClipStopsOK",
               "ClipStatsDefined", "InterpRefines", "CovSane", "DesignCovers", "RepAdmissible"]
-# quantify over SUBSET x SUBSET of the positions in every clipping state: checked in a run of their own on the quick bounds
+# quantify over SUBSET x SUBSET of the positions in every clipping state: checked in a run of their own on a small scope
 CLIP_THEOREMS = ["ClipPredsAgree", "ClipTolSound"]
+CLIP_THEOREM_BOUNDS = dict(ClipMaxLen=4, ClipMaxLenW=3, ClipVals={0, 1, 2, 3, 6}, ClipWts={1, 8}, NSigIdx={1, 2, 4})
 ACTIONS = ["ChooseX1", "ChooseW1", "ChooseMu", "MedStart", "MedStep", "MedDone", "ChooseX2", "ChooseW2",
-           "ChooseClipX", "ChooseClipW", "ClipStep", "ClipFinish", "ChooseNodes", "ChooseTabV", "ChooseCovDiag", "ChooseCovOff"]
+           "ChooseClipX", "ChooseClipW", "ClipStep", "ClipFinish", "ChooseNodes", "ChooseTabV", "ChooseCovDiag", "ChooseCovOff",
+           "ChooseRpWm", "ChooseRpCl", "ChooseRpIp", "ChooseRpCv"]
 
 
-# ---- abstract <-> concrete -----------------------------------------------------------------
 def _su():
     import esutil.stat.util as su
     return su
 
 
-def cdata(col, k):
-    unit, off, _, dt = CONC[k]
-    return np.array([(v + off) * unit for v in col], dtype=dt)
+# ---- the declared tables (StatsMC.tla) against the numbers ---------------------------------------------
+def check_tables(opts):
+    """the attributes StatsMC.tla declares for each lattice must hold for the numbers used here"""
+    names = [l["name"] for l in opts["lats"]]
+    if sorted(names) != sorted(LATNUM) or sorted(opts["reps"]) != sorted(KIND):
+        raise MachineryError("lattice / representation names of StatsMC.tla and the adapter differ")
+    tolbig, tolf4 = Fr(*opts["tolbig"]), Fr(*opts["tolf4"])
+    for l in opts["lats"]:
+        unit, off, wunit = LATNUM[l["name"]]
+        want = dict(int=unit.denominator == 1, half=unit.denominator == 1 and unit.numerator % 2 == 0, nn=off >= 0, qnn=off >= 2,
+                    big=abs(off) >= BIGOFF, i4=unit.denominator == 1 and (abs(off) + XMAX + 4) * unit < 2 ** 31,
+                    wint=wunit.denominator == 1)
+        got = {k: bool(l[k]) for k in want}
+        if got != want:
+            raise MachineryError("lattice %s: StatsMC.tla declares %s, the numbers give %s" % (l["name"], got, want))
+        # the tolerance the specification grants the clipping test covers 16 ulp of the operand scale
+        need = (RELTOL if want["big"] else RELTOL4) * (abs(off) + XMAX + 4)
+        if need > (tolbig if want["big"] else tolf4):
+            raise MachineryError("lattice %s: tolerance of StatsMC.tla below 16 ulp of the scale (%s)" % (l["name"], need))
+        # every lattice value (half-lattice points included) is exactly representable in binary64
+        for v in (-4, XMAX, Fr(1, 2)):
+            f = (v + off) * unit
+            if Fr(float(f)) != f:
+                raise MachineryError("lattice %s: %s not representable" % (l["name"], f))
 
 
-def cwts(col, k):
-    _, _, wunit, dt = CONC[k]
-    return np.array([v * wunit for v in col], dtype=dt)
+def lat(name):
+    unit, off, wunit = LATNUM[name]
+    return dict(unit=unit, off=off, wunit=wunit, big=abs(off) >= BIGOFF)
 
 
-def cmat(cols, fn, k):
-    """list of columns -> 1-d array (one column) or N-by-d array"""
+# ---- abstract <-> concrete -----------------------------------------------------------------
+JUNK = 7777
+
+
+def mk(vals, rep):
+    """exact values (Fractions; a flat list = 1-d, a list of rows = 2-d) -> the object handed to the code"""
+    two = bool(vals) and isinstance(vals[0], (list, tuple))
+    flat_ = [Fr(v) for row in vals for v in row] if two else [Fr(v) for v in vals]
+    for v in flat_:
+        if Fr(float(v)) != v:
+            raise MachineryError("value %s not representable in binary64" % (v,))
+    if rep == "list":
+        conv = int if all(v.denominator == 1 for v in flat_) else float
+        return [[conv(v) for v in row] for row in vals] if two else [conv(v) for v in vals]
+    dt = np.dtype(DTYPE.get(rep, "<f8"))
+    if dt.kind in "iu":
+        if any(v.denominator != 1 for v in flat_):
+            raise MachineryError("non-integer value for representation %s" % rep)
+        a = np.array([[int(v) for v in row] for row in vals] if two else [int(v) for v in vals], dtype="O").astype(dt)
+    else:
+        a = np.array([[float(v) for v in row] for row in vals] if two else [float(v) for v in vals], dtype=dt)
+    back = [Fr(int(v)) if dt.kind in "iu" else Fr(float(v)) for v in a.ravel()]
+    if back != flat_:
+        raise MachineryError("representation %s cannot hold the values exactly: %s" % (rep, flat_[:4]))
+    if rep == "strided":
+        base = np.full(tuple(2 * n + 1 for n in a.shape), float(JUNK), dtype=dt)
+        view = base[tuple(slice(1, None, 2) for _ in a.shape)]
+        view[...] = a
+        return view
+    if rep == "reversed":
+        rv = tuple(slice(None, None, -1) for _ in a.shape)
+        return a[rv].copy()[rv]
+    if rep == "readonly":
+        a.setflags(write=False)
+    return a
+
+
+def cdata(col, L, rep):
+    for v in col:
+        if not -4 <= v <= XMAX:
+            raise MachineryError("abstract datum %s outside the range the lattices were verified for" % v)
+    return mk([(Fr(v) + L["off"]) * L["unit"] for v in col], rep)
+
+
+def cmat(cols, fn, rep):
+    """columns -> 1-d (one column) or N-by-d"""
     if len(cols) == 1:
-        return fn(cols[0], k)
-    return np.column_stack([fn(c, k) for c in cols])
+        return mk(fn(cols[0]), rep)
+    cc = [fn(c) for c in cols]
+    return mk([[cc[j][i] for j in range(len(cc))] for i in range(len(cc[0]))], rep)
 
 
 def vec(val, d, bcast=False):
@@ -84,13 +177,17 @@ def vec(val, d, bcast=False):
 
 
 class Frame:
-    """frame condition: a non-in-place call must leave its array arguments unchanged"""
-    def __init__(self, *arrs):
-        self.arrs = [a for a in arrs if isinstance(a, np.ndarray)]
-        self.before = [a.tobytes() for a in self.arrs]
+    """frame condition: a non-in-place call must leave its arguments unchanged"""
+    def __init__(self, *args):
+        self.args = [a for a in args if a is not None]
+        self.before = [self.snap(a) for a in self.args]
+
+    @staticmethod
+    def snap(a):
+        return (str(a.dtype), a.shape, a.tobytes()) if isinstance(a, np.ndarray) else copy.deepcopy(a)
 
     def problems(self):
-        return [] if all(a.tobytes() == b for a, b in zip(self.arrs, self.before)) else ["argument_modified"]
+        return [] if all(self.snap(a) == b for a, b in zip(self.args, self.before)) else ["argument_modified"]
 
 
 def call(fn, *a, **kw):
@@ -100,40 +197,110 @@ def call(fn, *a, **kw):
             return fn(*a, **kw)
 
 
-# ---- one executor per op: (abstract case, list of parameter records, concretisation) -> runs ----
-def scales(cols, k, mu=None):
-    """lattice-unit magnitudes the rounding errors are relative to"""
-    _, off, _, _ = CONC[k]
-    s1 = max([abs(v + off) for c in cols for v in c] + [1])
-    if mu is not None:
-        s1 = max(s1, abs(Fr(*mu) + off))
-    return s1, 8 * s1 * s1
+# ---- projection of observed floats ------------------------------------------------------------------
+def lreal(obs, S, D, cap, unit, off=0, square=False, reltol=RELTOL):
+    """projection of one observed float on a LARGE-OFFSET lattice or for float32 input (as vh/adapters/c14.py big_real).
+
+    Tolerance "to rounding", relative to the operand scale S = max |operand| in lattice units, OFFSET INCLUDED:
+      value-type outputs (mean, min, max, median, interpolated value): |obs - exact| <= delta = 16 ulp * S;
+      deviation-type outputs (std, err): every algorithm has to form differences x_i - m of operands of magnitude S, each
+      determined only to ~ulp(S); the deviation is a root mean square of such differences and is granted the same ABSOLUTE
+      tolerance delta on the deviation itself, recorded through its square: [(s - delta)^2, (s + delta)^2].  A two-pass
+      deviation stays within ulp(S) of the exact value; the raw-moment formula E[x^2] - E[x]^2 carries an absolute error
+      ~ S * ulp(S) in the VARIANCE (2^28 lattice units^2 at S = 2^40): far outside.
+    Recording: if the tolerance interval is narrower than half the gap 1/D^2 between rationals of denominator <= D (D = the
+    denominator bound of the quantity) at most one candidate lies inside and the nearest one is recorded ("rat"); otherwise
+    the interval itself, rounded outward to multiples of 1/K and clamped to the range `cap` any expectation of the case can
+    take ("ivl", K a power of two chosen so that TLC's 32-bit integers suffice) - Stats!SObsEqI then checks that the exact
+    expectation lies inside."""
+    try:
+        f = float(obs)
+    except (TypeError, ValueError):
+        return dict(R_OFF)
+    if math.isnan(f) or math.isinf(f):
+        return dict(R_NAN)
+    delta = reltol * max(Fr(S), 1)
+    q = Fr(f) / unit
+    if square:
+        if q < 0:
+            return dict(R_OFF)
+        a, lo, hi = q * q, max(q - delta, 0) ** 2, (q + delta) ** 2
+    else:
+        a = q - off
+        lo, hi = a - delta, a + delta
+    D = max(int(D), 1)
+    if 2 * (hi - lo) < Fr(1, D * D):
+        r = a.limit_denominator(D)
+        if lo <= r <= hi and abs(r.numerator) <= INT31:
+            return {"k": "rat", "n": r.numerator, "d": r.denominator}
+        return dict(R_OFF)
+    bound = int(math.ceil(cap)) + 1
+    K = IVL_KMAX
+    while K >= 1 and (bound + 2) * K * D >= INT31:
+        K //= 2
+    if K < 1:
+        raise MachineryError("interval observation does not fit 32-bit integers (cap %s, denominator bound %s)" % (cap, D))
+    if lo > bound or hi < -bound:
+        return dict(R_OFF)
+    return {"k": "ivl", "n": max(math.floor(lo * K), -bound * K), "d": min(math.ceil(hi * K), bound * K), "K": K}
 
 
-def ex_wmom(c, ps, k):
+class Proj:
+    """projection of the outputs of one call: lattice, precision of the input, operand scale and expectation bounds"""
+    def __init__(self, L, f4, xs, mu=None):
+        """xs: every abstract datum of the call; mu: supplied mean (Fraction) or None"""
+        self.L, self.f4 = L, f4
+        pts = [Fr(v) for v in xs] + ([Fr(mu)] if mu is not None else [])
+        self.S = max([abs(v + L["off"]) for v in pts] + [1])
+        self.cap1 = max(abs(v) for v in pts) + 1
+        self.cap2 = max([(max(xs) - min(xs)) ** 2] + ([max((Fr(v) - mu) ** 2 for v in xs)] if mu is not None else [])) + 1
+        self.wide = L["big"] or f4
+        self.reltol = RELTOL4 if f4 else RELTOL
+
+    def lin(self, v, D):                   # value-type output (lattice units, offset removed)
+        if self.wide:
+            return lreal(v, self.S, D, self.cap1, self.L["unit"], off=self.L["off"], reltol=self.reltol)
+        return real(v, self.S, div=self.L["unit"], off=self.L["off"])
+
+    def dev2(self, v, D):                  # deviation-type output, recorded squared
+        if self.wide:
+            return lreal(v, self.S, D, self.cap2, self.L["unit"], square=True, reltol=self.reltol)
+        return real(v, 8 * self.S * self.S, div=self.L["unit"] ** 2, square=True)
+
+    def inv2(self, v):                     # 1/sqrt(sum w): weights only (always binary64: the code converts them)
+        return real(v, 1, mul=self.L["wunit"], square=True)
+
+
+def flat(cols):
+    return [v for c in cols for v in c]
+
+
+# ---- one executor per op: (abstract case, list of parameter records) -> runs -----------------------------
+def ex_wmom(c, ps):
     su = _su()
-    unit, off, wunit, _ = CONC[k]
+    L = lat(c["lat"])
     d = len(c["x"])
-    x, w = cmat(c["x"], cdata, k), cmat(c["w"], cwts, k)
-    for wc in c["w"]:
-        need_den(sum(wc) ** 4, "wmom total weight")
+    x = cmat(c["x"], lambda col: [(Fr(v) + L["off"]) * L["unit"] for v in col], c["rep"]["x"])
+    w = cmat(c["w"], lambda col: [Fr(v) * L["wunit"] for v in col], c["rep"]["w"])
+    W = max(sum(wc) for wc in c["w"])
+    need_den(W ** 4, "wmom total weight")
     fr = Frame(x, w)
     runs, problems = [], []
     for p in ps:
         kw = dict(calcerr=bool(p["calcerr"]), sdev=bool(p["sdev"]))
+        mu = Fr(*p["mu"]) if p["hasmu"] else None
         if p["hasmu"]:
-            kw["inputmean"] = float((Fr(*p["mu"]) + off) * Fr(unit))
-        s1, s2 = scales(c["x"], k, p["mu"] if p["hasmu"] else None)
+            kw["inputmean"] = float((mu + L["off"]) * L["unit"])
+        P = Proj(L, c["rep"]["x"] == "f4", flat(c["x"]), mu)
         try:
             res = call(su.wmom, x, w, **kw)
             mean = vec(res[0], d, bcast=bool(p["hasmu"]))
             err = vec(res[1], d)
             sd = vec(res[2], d) if p["sdev"] else []
             o = {"err": "none",
-                 "mean": [real(v, s1, div=unit, off=off) for v in mean],
-                 "err2": [real(v, s2, div=Fr(unit) ** 2, square=True) if p["calcerr"] else real(v, 1, mul=wunit, square=True)
-                          for v in err],
-                 "var": [real(v, s2, div=Fr(unit) ** 2, square=True) for v in sd]}
+                 "mean": [P.lin(v, max(W, 2)) for v in mean],
+                 "err2": [P.dev2(v, max(W ** 4, 4 * W * W)) if p["calcerr"] else P.inv2(v) for v in err],
+                 "var": [P.dev2(v, max(W * W, 4 * W)) for v in sd]}
             raw = {"mean": mean, "err": err, "sdev": sd}
         except Exception as e:  # noqa
             o = {"err": type(e).__name__, "mean": [], "err2": [], "var": []}
@@ -150,15 +317,16 @@ def ex_wmom(c, ps, k):
     return runs, problems + fr.problems()
 
 
-def ex_wmedian(c, ps, k):
+def ex_wmedian(c, ps):
     su = _su()
-    unit, off, _, _ = CONC[k]
-    x, w = cdata(c["x"], k), cwts(c["w"], k)
+    L = lat(c["lat"])
+    x = cdata(c["x"], L, c["rep"]["x"])
+    w = mk([Fr(v) * L["wunit"] for v in c["w"]], c["rep"]["w"])
     fr = Frame(x, w)
-    s1, _ = scales([c["x"]], k)
+    P = Proj(L, c["rep"]["x"] == "f4", c["x"])
     try:
         v = call(su.wmedian, x, w)
-        o = {"err": "none", "val": real(v, s1, div=unit, off=off)}
+        o = {"err": "none", "val": P.lin(v, 1)}
         raw = {"val": float(v)}
     except Exception as e:  # noqa
         o = {"err": type(e).__name__, "val": real(float("nan"), 1)}
@@ -166,26 +334,38 @@ def ex_wmedian(c, ps, k):
     return [{"p": ps[0], "o": o, "raw": raw}], fr.problems()
 
 
-def _clip_out(res, c, k):
-    unit, off, wunit, _ = CONC[k]
-    s1, s2 = scales([c["x"]], k)
-    return {"mean": real(res[0], s1, div=unit, off=off),
-            "var": real(res[1], s2, div=Fr(unit) ** 2, square=True),
-            "err2": real(res[2], s2, div=Fr(unit) ** 2, square=True),
-            "err2i": real(res[2], 1, mul=wunit, square=True)}
+def _clip_out(res, c, P):
+    n = len(c["x"])
+    W = sum(c["w"]) if c["hasw"] else n
+    return {"mean": P.lin(res[0], max(W, 2)),
+            "var": P.dev2(res[1], max(W * W, 2)),
+            "err2": P.dev2(res[2], max(W ** 4 if c["hasw"] else n ** 3, 2)),
+            "err2i": P.inv2(res[2])}
 
 
-def ex_clip(c, ps, k):
+def check_tol(c, x, L):
+    """the clipping tolerance the exported case carries must cover 16 ulp of this concretisation's operand scale"""
+    f4 = c["rep"]["x"] == "f4"
+    if L["big"] or f4:
+        S = max(abs(v + L["off"]) for v in x)
+        if (RELTOL4 if f4 else RELTOL) * S > Fr(*c["tol"]):
+            raise MachineryError("clipping tolerance %s of the case below 16 ulp of its scale" % (c["tol"],))
+
+
+def ex_clip(c, ps):
     """re-observes the iteration: one public call per iteration count 0..max(niter)"""
     su = _su()
-    x = cdata(c["x"], k)
-    w = cwts(c["w"], k) if c["hasw"] else None
+    L = lat(c["lat"])
+    check_tol(c, c["x"], L)
+    x = cdata(c["x"], L, c["rep"]["x"])
+    w = mk([Fr(v) * L["wunit"] for v in c["w"]], c["rep"]["w"]) if c["hasw"] else None
     if c["hasw"]:
         need_den(sum(c["w"]) ** 4, "sigma_clip total weight")
     else:
         need_den(len(c["x"]) ** 3, "sigma_clip length")
     nsig = c["nsn"] / c["nsd"]
     fr = Frame(x, w)
+    P = Proj(L, c["rep"]["x"] == "f4", c["x"])
     top = max(p["niter"] for p in ps)
     steps, outs, err = [], [], None
     for it in range(top + 1):
@@ -204,7 +384,7 @@ def ex_clip(c, ps, k):
                          "raw": {"exc": repr(err)}})
             continue
         res = outs[p["niter"]]
-        o = dict({"err": "none", "steps": steps[:p["niter"] + 1]}, **_clip_out(res, c, k))
+        o = dict({"err": "none", "steps": steps[:p["niter"] + 1]}, **_clip_out(res, c, P))
         runs.append({"p": p, "o": o, "raw": {"mean": float(res[0]), "std": float(res[1]), "err": float(res[2])}})
     # the optional outputs are positional: the same values must appear with every flag setting
     # (a relation between two outputs of the implementation - compared directly)
@@ -219,22 +399,41 @@ def ex_clip(c, ps, k):
     return runs, fr.problems() + ([] if flags_ok else ["flag_variants_differ"])
 
 
-def ex_interp(c, ps, k):
+def ex_interp(c, ps):
     su = _su()
-    unit, off, _, dt = CONC[k]
-    vunit, voff, _, vdt = CONC[(k + 3) % len(CONC)]
-    xs = cdata(c["xs"], k)
-    vs = cdata(c["vs"], (k + 3) % len(CONC))
-    us = np.array([float((Fr(*u) + off) * Fr(unit)) for u in c["us"]], dtype="f8")
+    L, LV = lat(c["lat"]), lat(c["vlat"])
+    us_abs = [Fr(*u) for u in c["us"]]
+    for u in us_abs:
+        if not -4 <= u <= XMAX:
+            raise MachineryError("query point outside the verified range")
+    xs = cdata(c["xs"], L, c["rep"]["x"])
+    vs = cdata(c["vs"], LV, c["rep"]["v"])
+    us = mk([(u + L["off"]) * L["unit"] for u in us_abs], c["rep"]["u"])
     fr = Frame(xs, vs, us)
-    dxmin = min(b - a for a, b in zip(c["xs"], c["xs"][1:]))
-    span = max([Fr(*u) for u in c["us"]] + [Fr(c["xs"][-1])]) - min([Fr(*u) for u in c["us"]] + [Fr(c["xs"][0])])
-    sc = max([abs(v + voff) for v in c["vs"]] + [1]) * (1 + 2 * span / dxmin)
+    dxs = [b - a for a, b in zip(c["xs"], c["xs"][1:])]
+    span = max(us_abs + [Fr(c["xs"][-1])]) - min(us_abs + [Fr(c["xs"][0])])
+    f4 = "f4" in c["rep"].values()
+    wide = L["big"] or LV["big"] or f4
+    if wide:
+        # perturbing an operand x or u by one ulp of ITS scale moves the result by slope * ulp: the operand scale of the
+        # result (lattice units of v) is  max|v| + max|slope| * (max|x|, |u| + span), offsets included
+        slope = max(abs(Fr(b - a, dx)) for a, b, dx in zip(c["vs"], c["vs"][1:], dxs))
+        sx = max(abs(v + L["off"]) for v in us_abs + [Fr(v) for v in c["xs"]])
+        S = max(abs(v + LV["off"]) for v in c["vs"]) + slope * (sx + span) + 1
+        cap = max(abs(v) for v in c["vs"]) + slope * (span + 1) + 1
+        D = 2 * max(dxs)
+
+        def proj(v):
+            return lreal(v, S, D, cap, LV["unit"], off=LV["off"], reltol=RELTOL4 if f4 else RELTOL)
+    else:
+        sc = max([abs(v + LV["off"]) for v in c["vs"]] + [1]) * (1 + 2 * span / min(dxs))
+
+        def proj(v):
+            return real(v, sc, div=LV["unit"], off=LV["off"])
     try:
         vec_out = [float(v) for v in call(su.interplin, vs, xs, us)]
         one_out = [float(np.atleast_1d(call(su.interplin, vs, xs, us[i]))[0]) for i in range(len(us))]
-        o = {"err": "none", "vals": [[real(v, sc, div=vunit, off=voff) for v in vec_out],
-                                     [real(v, sc, div=vunit, off=voff) for v in one_out]]}
+        o = {"err": "none", "vals": [[proj(v) for v in vec_out], [proj(v) for v in one_out]]}
         raw = {"vec": vec_out, "one": one_out}
     except Exception as e:  # noqa
         o = {"err": type(e).__name__, "vals": []}
@@ -242,13 +441,16 @@ def ex_interp(c, ps, k):
     return [{"p": ps[0], "o": o, "raw": raw}], fr.problems()
 
 
-def ex_gstats(c, ps, k):
+def ex_gstats(c, ps):
     su = _su()
-    unit, off, wunit, _ = CONC[k]
+    L = lat(c["lat"])
     d = len(c["x"])
-    x = cmat(c["x"], cdata, k)
-    w = cmat(c["w"], cwts, k)
+    x = cmat(c["x"], lambda col: [(Fr(v) + L["off"]) * L["unit"] for v in col], c["rep"]["x"])
+    w = cmat(c["w"], lambda col: [Fr(v) * L["wunit"] for v in col], c["rep"]["w"])
     fr = Frame(x, w)
+    P = Proj(L, c["rep"]["x"] == "f4", flat(c["x"]))
+    n = len(c["x"][0])
+    W = max(sum(wc) for wc in c["w"])
     runs = []
     for p in ps:
         kw = {}
@@ -257,20 +459,22 @@ def ex_gstats(c, ps, k):
             if not p["calcerr"]:
                 kw["calcerr"] = False
         elif p["mode"] == "clip":
+            check_tol(c, c["x"][0], L)
             kw.update(nsig=c["nsn"] / c["nsd"], niter=p["niter"], silent=True)
             if c["hasw"]:
                 kw["weights"] = w
-        s1, s2 = scales(c["x"], k)
+        plain = p["mode"] == "plain" or (p["mode"] == "clip" and not c["hasw"])
+        T = n if plain else W                  # total weight of the moments
         try:
             res = call(su.get_stats, x, **kw)
             f = {key: vec(res[key], d) for key in ("mean", "std", "err", "min", "max")}
             o = {"err": "none",
-                 "mean": [real(v, s1, div=unit, off=off) for v in f["mean"]],
-                 "var": [real(v, s2, div=Fr(unit) ** 2, square=True) for v in f["std"]],
-                 "err2": [real(v, s2, div=Fr(unit) ** 2, square=True) for v in f["err"]],
-                 "err2i": [real(v, 1, mul=wunit, square=True) for v in f["err"]],
-                 "min": [real(v, s1, div=unit, off=off) for v in f["min"]],
-                 "max": [real(v, s1, div=unit, off=off) for v in f["max"]]}
+                 "mean": [P.lin(v, max(T, 2)) for v in f["mean"]],
+                 "var": [P.dev2(v, max(T * T, 2)) for v in f["std"]],
+                 "err2": [P.dev2(v, max(T ** 3 if plain else T ** 4, 2)) for v in f["err"]],
+                 "err2i": [P.inv2(v) for v in f["err"]],
+                 "min": [P.lin(v, 1) for v in f["min"]],
+                 "max": [P.lin(v, 1) for v in f["max"]]}
             raw = f
         except Exception as e:  # noqa
             o = {"err": type(e).__name__, "mean": [], "var": [], "err2": [], "err2i": [], "min": [], "max": []}
@@ -279,21 +483,35 @@ def ex_gstats(c, ps, k):
     return runs, fr.problems()
 
 
-def ex_cov(c, ps, k):
+def ex_cov(c, ps):
     su = _su()
-    unit, _, _, dt = CONC[k]
-    u2 = Fr(unit) ** 2
-    m = np.array([[v * float(u2) for v in row] for row in c["m"]], dtype=dt)
+    unit = lat(c["lat"])["unit"]
+    u2 = unit ** 2
+    rep = c["rep"]["m"]
+    m = mk([[Fr(v) * u2 for v in row] for row in c["m"]], rep)
     fr = Frame(m)
-    n = len(c["m"])
     big = max(abs(v) for row in c["m"] for v in row)
+    dmax = max(c["m"][i][i] for i in range(len(c["m"])))
+    # (numpy computes sqrt of a 16-bit integer in float32: a uint16 matrix is judged to float32 rounding)
+    f4 = rep in ("f4", "u2")
+
+    def pcor(v):
+        if f4:
+            # (|cor| <= max|m| as the diagonal is >= 1 lattice unit; a matrix need not be positive definite)
+            return lreal(abs(v), big, dmax * dmax, big * big, Fr(1), square=True, reltol=RELTOL4)
+        return real(abs(v), max(1.0, v * v if v == v else 1.0), square=True)
+
+    def pback(v):
+        if f4:
+            return lreal(v, big, 1, big, u2, reltol=RELTOL4)
+        return real(v, big, div=u2)
     try:
         cor = call(su.cov2cor, m)
-        back = call(su.cor2cov, cor, np.sqrt(np.diag(m).astype("f8")))
+        back = call(su.cor2cov, cor, np.sqrt(np.diag(np.asarray(m)).astype("f8")))
         corl = [[float(cor[i][j]) for j in range(cor.shape[1])] for i in range(cor.shape[0])]
         o = {"err": "none",
-             "cor": [[dict(real(abs(v), max(1.0, v * v if v == v else 1.0), square=True), s=(v > 0) - (v < 0)) for v in row] for row in corl],
-             "back": [[real(back[i][j], big, div=u2) for j in range(back.shape[1])] for i in range(back.shape[0])]}
+             "cor": [[dict(pcor(v), s=(v > 0) - (v < 0)) for v in row] for row in corl],
+             "back": [[pback(back[i][j]) for j in range(back.shape[1])] for i in range(back.shape[0])]}
         raw = {"cor": corl, "back": np.asarray(back, dtype=float).tolist()}
     except Exception as e:  # noqa
         o = {"err": type(e).__name__, "cor": [], "back": []}
@@ -305,10 +523,10 @@ EXEC = {"wmom": ex_wmom, "wmedian": ex_wmedian, "clip": ex_clip, "interp": ex_in
 
 
 def execute(job):
-    """job = (id, op, c, ps, conc) -> record"""
-    i, op, c, ps, k = job
-    runs, problems = EXEC[op](c, ps, k)
-    return {"id": i, "op": op, "c": c, "ps": ps, "conc": k, "runs": runs, "problems": problems}
+    """job = (id, op, c, ps) -> record"""
+    i, op, c, ps = job
+    runs, problems = EXEC[op](c, ps)
+    return {"id": i, "op": op, "c": c, "ps": ps, "runs": runs, "problems": problems}
 
 
 # ---- exported case -> jobs -------------------------------------------------------------------------
@@ -325,36 +543,43 @@ def wmom_params(mus):
 GSTATS_CLIP_MAXLEN = 8      # = Stats!SClipEnumMax
 
 
-def jobs_of(case, opts, k):
+def jobs_of(case, opts):
     """abstract case exported by StatsMC -> list of (op, c, ps)"""
     op = case["op"]
     if op == "wm":
         x, w = case["x"], case["w"]
-        out = [("wmom", {"x": x, "w": w}, wmom_params(opts["mus"]))]
+        how = {"rep": case["rep"], "lat": case["lat"]}
+        out = [("wmom", dict(how, x=x, w=w), wmom_params(opts["mus"]))]
         gs = [{"mode": "plain", "calcerr": True, "niter": 0}, {"mode": "weights", "calcerr": True, "niter": 0},
               {"mode": "weights", "calcerr": False, "niter": 0}]
-        out.append(("gstats", {"x": x, "w": w, "hasw": True, "nsn": 1, "nsd": 1}, gs))
+        out.append(("gstats", dict(how, x=x, w=w, hasw=True, nsn=1, nsd=1, tol=[0, 1]), gs))
         if len(x) == 1 and len(w) == 1:
-            out.append(("wmedian", {"x": x[0], "w": w[0]}, [{"v": 1}]))
+            out.append(("wmedian", dict(how, x=x[0], w=w[0]), [{"v": 1}]))
         return out
     if op == "cl":
-        c = {kk: case[kk] for kk in ("x", "w", "hasw", "nsn", "nsd")}
+        c = {kk: case[kk] for kk in ("x", "w", "hasw", "nsn", "nsd", "rep", "lat", "tol")}
         nit = case["niter"]
         out = [("clip", c, [{"niter": it} for it in sorted({1, nit})])]
         if len(case["x"]) <= GSTATS_CLIP_MAXLEN:
             # get_stats reports no subset: the spec enumerates every subset the clipping may end on (3^n at worst)
-            out.append(("gstats", {"x": [case["x"]], "w": [case["w"]], "hasw": case["hasw"], "nsn": case["nsn"], "nsd": case["nsd"]},
-                        [{"mode": "clip", "calcerr": True, "niter": nit}]))
+            out.append(("gstats", dict(c, x=[case["x"]], w=[case["w"]]), [{"mode": "clip", "calcerr": True, "niter": nit}]))
         return out
     if op == "ip":
-        return [("interp", {"xs": case["xs"], "vs": case["vs"], "us": case["us"]}, [{"v": 1}])]
+        return [("interp", {kk: case[kk] for kk in ("xs", "vs", "us", "rep", "lat", "vlat")}, [{"v": 1}])]
     if op == "cv":
-        return [("cov", {"m": case["m"]}, [{"v": 1}])]
+        return [("cov", {kk: case[kk] for kk in ("m", "rep", "lat")}, [{"v": 1}])]
     raise MachineryError("unknown exported case %r" % (case,))
 
 
 # ---- signatures -------------------------------------------------------------------------------------
 ENTRY = {"wmom": "wmom", "wmedian": "wmedian", "clip": "sigma_clip", "interp": "interplin", "gstats": "get_stats", "cov": "cov2cor/cor2cov"}
+
+
+def how_class(op, c):
+    """(the most unusual representation kind among the array arguments, the lattice has a large offset)"""
+    kinds = {KIND[r] for r in c["rep"].values()}
+    k = next(kk for kk in ("uint", "int", "f4", "list", "f8") if kk in kinds)
+    return k, op != "cov" and (lat(c["lat"])["big"] or (op == "interp" and lat(c["vlat"])["big"]))
 
 
 def struct_class(op, c, p):
@@ -374,31 +599,79 @@ def struct_class(op, c, p):
     return "?"
 
 
+def how_suffix(hows):
+    """which representation / lattice feature the failures of one (entry, clause, structure) group need:
+    nothing if plain float64 data on a small lattice fail too; 'large-offset' if float64 data fail only there;
+    else the representation kinds that fail (and 'large-offset' if they fail only there)"""
+    if ("f8", False) in hows:
+        return ""
+    if ("f8", True) in hows:
+        return "|large-offset"
+    return "|" + "+".join(sorted({k for k, _ in hows})) + ("" if any(not b for _, b in hows) else "|large-offset")
+
+
 def judge(ctx, recs, what):
     rejects = tracecheck.validate(ctx, "StatsTrace.tla",
                                   [{"id": r["id"], "op": r["op"], "c": r["c"],
                                     "runs": [{"p": u["p"], "o": u["o"]} for u in r["runs"]]} for r in recs], what=what)
     byid = {r["id"]: r for r in recs}
+    fails, groups = [], {}
     for rid, failing in sorted(rejects.items()):
         r = byid[rid]
         for f in failing:
             ki, clause = f.split(":", 1)
             u = r["runs"][int(ki) - 1]
-            ctx.violation("%s|%s|%s" % (ENTRY[r["op"]], clause, struct_class(r["op"], r["c"], u["p"])),
-                          "esutil.stat.%s result not allowed by Stats.tla: clause %s" % (ENTRY[r["op"]], clause),
-                          {"op": r["op"], "c": r["c"], "ps": [u["p"]], "conc": r["conc"], "observed": u["o"], "raw": u["raw"]})
+            key = "%s|%s|%s" % (ENTRY[r["op"]], clause, struct_class(r["op"], r["c"], u["p"]))
+            fails.append((key, r, u, clause))
+            groups.setdefault(key, set()).add(how_class(r["op"], r["c"]))
+    for key, r, u, clause in fails:
+        ctx.violation(key + how_suffix(groups[key]),
+                      "esutil.stat.%s result not allowed by Stats.tla: clause %s" % (ENTRY[r["op"]], clause),
+                      {"op": r["op"], "c": r["c"], "ps": [u["p"]], "observed": u["o"], "raw": u["raw"]})
     for r in recs:
         for pb in sorted(set(r["problems"])):
             ctx.violation("%s|%s" % (ENTRY[r["op"]], pb),
-                          "call modified an array argument / optional outputs differ between flag settings (%s)" % pb,
-                          {"op": r["op"], "c": r["c"], "ps": r["ps"], "conc": r["conc"]})
+                          "call modified an argument / optional outputs differ between flag settings (%s)" % pb,
+                          {"op": r["op"], "c": r["c"], "ps": r["ps"]})
     return rejects
 
 
 # ---- larger seeded cases (code -> spec) -------------------------------------------------------------
+class How:
+    """draws an admissible (representations, lattice[, tolerance]) for a seeded case from the tables StatsMC.tla exported"""
+    def __init__(self, opts):
+        self.reps = list(opts["reps"])
+        self.lats = [l["name"] for l in opts["lats"]]
+        self.ok = {k: {tuple(t) for t in opts[k]} for k in ("okdata", "okwts", "okquery")}
+        self.tols = {(t[0], t[1]): t[2] for t in opts["tols"]}
+
+    def pick(self, rng, table, latname):
+        r = rng.choice(self.reps)
+        return r if (r, latname) in self.ok[table] else "f8"
+
+    def data(self, rng):
+        ln = rng.choice(self.lats)
+        rx = self.pick(rng, "okdata", ln)
+        return {"rep": {"x": rx, "w": self.pick(rng, "okwts", ln)}, "lat": ln, "tol": self.tols[(ln, "f4" if rx == "f4" else "f8")]}
+
+    def table(self, rng):
+        ln, lv = rng.choice(self.lats), rng.choice(self.lats)
+        return {"rep": {"v": self.pick(rng, "okdata", lv), "x": self.pick(rng, "okdata", ln), "u": self.pick(rng, "okquery", ln)},
+                "lat": ln, "vlat": lv}
+
+    def cov(self, rng, m):
+        ln = rng.choice(self.lats)
+        r = rng.choice(self.reps)
+        okint = ("i8", ln) in self.ok["okdata"]           # = the lattice is integral
+        if r == "list" or (KIND[r] in ("int", "uint") and not okint) or (KIND[r] == "uint" and min(v for row in m for v in row) < 0):
+            r = "f8"
+        return {"rep": {"m": r}, "lat": ln}
+
+
 def seeded_jobs(rng, n, opts):
     out = []
     nsigs = opts["nsigs"]
+    how = How(opts)
     for _ in range(n):
         kind = rng.choice(["wm", "wm", "wmNd", "clu", "clu", "clw", "ip", "cv"])
         if kind == "wm":
@@ -409,7 +682,8 @@ def seeded_jobs(rng, n, opts):
                 w[rng.randrange(ln)] = 0
             if sum(w) == 0:
                 w[rng.randrange(ln)] = 1
-            out.extend(jobs_of({"op": "wm", "x": [x], "w": [w]}, opts, 0))
+            h = how.data(rng)
+            out.extend(jobs_of({"op": "wm", "x": [x], "w": [w], "rep": h["rep"], "lat": h["lat"]}, opts))
         elif kind == "wmNd":
             ln, d = rng.randint(2, 6), rng.randint(2, 3)
             x = [[rng.randint(0, 8) for _ in range(ln)] for _ in range(d)]
@@ -418,7 +692,8 @@ def seeded_jobs(rng, n, opts):
             for col in w:
                 if sum(col) == 0:
                     col[rng.randrange(ln)] = 1
-            out.extend(jobs_of({"op": "wm", "x": x, "w": w}, opts, 0))
+            h = how.data(rng)
+            out.extend(jobs_of({"op": "wm", "x": x, "w": w, "rep": h["rep"], "lat": h["lat"]}, opts))
         elif kind in ("clu", "clw"):
             hasw = kind == "clw"
             ln = rng.randint(5, 10) if hasw else rng.randint(6, 24)
@@ -430,14 +705,14 @@ def seeded_jobs(rng, n, opts):
             while hasw and sum(w) > 16:
                 w[w.index(max(w))] = 1
             ns = nsigs[rng.randrange(len(nsigs))]
-            out.extend(jobs_of({"op": "cl", "x": x, "w": w, "hasw": hasw, "nsn": ns[0], "nsd": ns[1], "niter": rng.choice([3, 4, 6, 10])},
-                               opts, 0))
+            out.extend(jobs_of(dict(how.data(rng), op="cl", x=x, w=w, hasw=hasw, nsn=ns[0], nsd=ns[1], niter=rng.choice([3, 4, 6, 10])),
+                               opts))
         elif kind == "ip":
             nn = rng.randint(2, 8)
             xs = sorted(rng.sample(range(0, 21), nn))
             vs = [rng.randint(0, 12) for _ in range(nn)]
-            us = [rat(Fr(rng.randint(-12, 96), 4)) for _ in range(12)] + [[v, 1] for v in xs[:3]]
-            out.append(("interp", {"xs": xs, "vs": vs, "us": us}, [{"v": 1}]))
+            us = [rat(Fr(rng.randint(-4, 48), 2)) for _ in range(12)] + [[v, 1] for v in xs[:3]]     # half-lattice, 2 beyond either end
+            out.append(("interp", dict(how.table(rng), xs=xs, vs=vs, us=us), [{"v": 1}]))
         else:
             nn = rng.randint(3, 6)
             m = [[0] * nn for _ in range(nn)]
@@ -445,19 +720,59 @@ def seeded_jobs(rng, n, opts):
                 m[i][i] = rng.choice([1, 2, 4, 9, 16, 25])
                 for j in range(i):
                     m[i][j] = m[j][i] = rng.randint(-4, 4)
-            out.append(("cov", {"m": m}, [{"v": 1}]))
+            out.append(("cov", dict(how.cov(rng, m), m=m), [{"v": 1}]))
     return out
 
 
 # ---- the check ------------------------------------------------------------------------------------------
+def has_interval(r):
+    return '"ivl"' in json.dumps([u["o"] for u in r["runs"]])
+
+
+def census(recs, cen):
+    """which representations / lattices / kinds of observation the run really exercised (vacuity guard)"""
+    for r in recs:
+        c = r["c"]
+        for arg, rp in c["rep"].items():
+            cen["rep:" + rp] = cen.get("rep:" + rp, 0) + 1
+            cen.setdefault("pairs", set()).add((r["op"], arg, rp, c["lat"]))
+        cen["lat:" + c["lat"]] = cen.get("lat:" + c["lat"], 0) + 1
+        big = lat(c["lat"])["big"] or (r["op"] == "interp" and lat(c["vlat"])["big"])
+        if big and r["op"] != "cov":
+            cen["large_offset:" + r["op"]] = cen.get("large_offset:" + r["op"], 0) + 1
+        if has_interval(r):
+            cen["interval:" + r["op"]] = cen.get("interval:" + r["op"], 0) + 1
+        if r["op"] == "clip" and Fr(*c["tol"]) > 0:
+            cen["clip_with_tolerance"] = cen.get("clip_with_tolerance", 0) + 1
+    return cen
+
+
 def run(ctx):
     B = BOUNDS[ctx.tier]
-    kinds = {"wm", "wm2", "cl", "ip", "cv"}
-    consts = dict(B, Kinds=kinds, MedVariantGE=False, DoExport=False)
-    # 1. design level: definitions agree, mechanisms refine the property, no overflow - the whole space
-    ctx.tlc("StatsMC.tla", what="definitions agree + mechanisms refine property (exhaustive)",
-            cfg_text=cfg(constants=consts, invariants=INVARIANTS, properties=["ClipShrinks"]),
-            workers=16, require=ACTIONS, timeout=3000)
+    kinds = {"wm", "wm2", "cl", "ip", "cv", "rp"}
+    consts = dict(B, Kinds=kinds, MedVariantGE=False, DoExport=False, RepFull=not ctx.quick)
+    # 1. design level: definitions agree, mechanisms refine the property, no overflow - the whole space.
+    #    Per-action coverage (vacuity guard) is costly on the large space: in the thorough tier it is taken on the quick
+    #    bounds and the large space is explored without it.
+    if ctx.quick:
+        ctx.tlc("StatsMC.tla", what="definitions agree + mechanisms refine property (exhaustive)",
+                cfg_text=cfg(constants=consts, invariants=INVARIANTS, properties=["ClipShrinks"]),
+                workers=16, require=ACTIONS, timeout=3000)
+    else:
+        ctx.tlc("StatsMC.tla", what="definitions agree + mechanisms refine property (quick bounds, action coverage)",
+                cfg_text=cfg(constants=dict(consts, **dict(BOUNDS["quick"], RepFull=False)), invariants=INVARIANTS, properties=["ClipShrinks"]),
+                workers=16, require=ACTIONS, timeout=3000)
+        ctx.tlc("StatsMC.tla", what="definitions agree + mechanisms refine property (exhaustive)",
+                cfg_text=cfg(constants=consts, invariants=INVARIANTS, properties=["ClipShrinks"]),
+                workers=16, coverage=False, timeout=3000)
+    # 1a. the predicate forms of the clipping relations (used by the trace module) equal the set forms, and the
+    #     tolerance-aware relations contain the exact ones / coincide with them at tolerance 0: on every pair of subsets
+    #     of every clipping state of a small scope (SUBSET x SUBSET per state - too expensive on the thorough bounds)
+    r1a = ctx.tlc("StatsMC.tla", what="clipping relations: predicate = set form, tolerance-aware contains exact (small scope)",
+                  cfg_text=cfg(constants=dict(consts, Kinds={"cl"}, **CLIP_THEOREM_BOUNDS), invariants=CLIP_THEOREMS, next_="NextExport"),
+                  workers=16, coverage=False, timeout=3000)      # (NextExport: the cases only - the theorems do not read the iteration state)
+    if r1a.distinct < 1000:
+        raise MachineryError("clipping-relation run too small: %d states" % r1a.distinct)
     # 1b. non-vacuity of MedRefines: a deviating loop test must violate it
     r1b = ctx.tlc("StatsMC.tla", what="self-test: deviating wmedian loop violates MedRefines",
                   cfg_text=cfg(constants=dict(consts, Kinds={"wm"}, MaxLen=2, MedVariantGE=True), invariants=["MedRefines"]),
@@ -472,91 +787,134 @@ def run(ctx):
     opts = (r2.records.get("OPTS") or [None])[0]
     if not cases or not opts:
         raise MachineryError("no cases / option tables exported")
+    check_tables(opts)
     nkinds = {}
     for cse in cases:
         nkinds[cse["op"]] = nkinds.get(cse["op"], 0) + 1
     if set(nkinds) != {"wm", "cl", "ip", "cv"}:
         raise MachineryError("export incomplete: %s" % nkinds)
     jobs = []
-    for n, cse in enumerate(cases):
-        for op, c, ps in jobs_of(cse, opts, n % len(CONC)):
-            jobs.append((len(jobs) + 1, op, c, ps, n % len(CONC)))
+    for cse in cases:
+        for op, c, ps in jobs_of(cse, opts):
+            jobs.append((len(jobs) + 1, op, c, ps))
     recs = pmap(execute, jobs)
+    cen = {}
     for r in recs:
         ctx.count({"op": r["op"], "c": r["c"]}, n=len(r["runs"]))
+    census(recs, cen)
     seen = set()
     for r in recs:
         last = r["runs"][-1]["o"]
-        if r["op"] not in seen and last["err"] == "none" and (r["op"] != "clip" or len(last["steps"][-1]) < len(r["c"]["x"])):
-            seen.add(r["op"])
-            ctx.sample({"op": r["op"], "case": r["c"], "params": r["runs"][-1]["p"], "observed": r["runs"][-1]["o"]}, cap=8)
+        key = (r["op"], r["op"] != "cov" and lat(r["c"]["lat"])["big"])
+        if key not in seen and last["err"] == "none" and (r["op"] != "clip" or len(last["steps"][-1]) < len(r["c"]["x"])):
+            seen.add(key)
+            ctx.sample({"op": r["op"], "case": r["c"], "params": r["runs"][-1]["p"], "observed": r["runs"][-1]["o"]}, cap=12)
     rejected = set(judge(ctx, recs, "judge replayed cases (StatsTrace)"))
     # 3. larger seeded cases (code -> spec)
     nrand = 1500 if ctx.quick else 30000
     sj = seeded_jobs(random.Random(ctx.seed), nrand, opts)
-    rrecs = pmap(execute, [(len(recs) + 1 + i, op, c, ps, (ctx.seed + i) % len(CONC)) for i, (op, c, ps) in enumerate(sj)])
+    rrecs = pmap(execute, [(len(recs) + 1 + i, op, c, ps) for i, (op, c, ps) in enumerate(sj)])
     for r in rrecs:
         ctx.count({"op": r["op"], "c": r["c"]}, n=len(r["runs"]))
+    census(rrecs, cen)
     judge(ctx, rrecs, "judge seeded larger cases (StatsTrace)")
-    # 4. binding self-test: corrupted observations must be rejected, the untouched ones accepted
+    # 4. vacuity guards on the two added dimensions, binding self-test
+    pairs = cen.pop("pairs")
+    need = (["rep:" + r for r in opts["reps"]] + ["lat:" + l["name"] for l in opts["lats"]] +
+            ["large_offset:" + op for op in ("wmom", "wmedian", "clip", "interp", "gstats")] +
+            ["interval:" + op for op in ("wmom", "clip", "interp", "gstats")] + ["clip_with_tolerance"])
+    missing = [k for k in need if not cen.get(k)]
+    if missing and not ctx.violations:
+        raise MachineryError("vacuous run: nothing exercised %s" % missing)
     selftest(ctx, [r for r in recs if r["id"] not in rejected])      # probe accepted records only (a broken tree must not break the self-test)
     ctx.rule = ("every (data, weights) pair with data of length %d..%d over %d lattice values and weights over %s (total <= %d) x "
                 "calcerr x sdev x inputmean in {none, %s}; every N-by-2 input (N <= %d) with 1-d and N-by-2 weights; every clipping "
                 "input of length <= %d over %s (weighted: length <= %d, weights %s) x nsig in %s x niter 0..%d (each iteration "
                 "re-observed); every interpolation table of 2..%d nodes from %s with values from %s at %d query points (inside, at "
                 "nodes, outside); every symmetric matrix up to %dx%d with diagonal from %s and off-diagonal in %d..%d - all exported "
-                "from StatsMC.tla, concretised on %d dyadic lattices; plus %d seeded larger cases. A case is distinct by its abstract "
-                "record (op, data) and counted once; evaluations count the calls made on it (option settings)." %
+                "from StatsMC.tla, each with one (representation per array argument, lattice) row of a pairwise-covering design over "
+                "%d representations (%s) and %d lattices (%d of them with offsets 10^8..2^40), plus a few data sets of every kind under "
+                "%s; plus %d seeded larger cases with drawn representations / lattices. A case is distinct by its abstract record "
+                "(op, data, representation, lattice) and counted once; evaluations count the calls made on it (option settings)." %
                 (B["MinLen"], B["MaxLen"], len(B["Vals"]), sorted(B["Wts"]), B["MaxW"], opts["mus"], B["N2Max"], B["ClipMaxLen"],
                  sorted(B["ClipVals"]), B["ClipMaxLenW"], sorted(B["ClipWts"]), [opts["nsigs"][i - 1] for i in sorted(B["NSigIdx"])],
-                 NITER, B["TabMax"], sorted(B["TabX"]), sorted(B["TabV"]), 4 * (max(B["TabX"]) - min(B["TabX"])) + 9,
-                 B["CovMaxN"], B["CovMaxN"], sorted(B["CovDiag"]), -B["CovShift"], B["CovOffN"] - B["CovShift"], len(CONC), len(sj)))
+                 NITER, B["TabMax"], sorted(B["TabX"]), sorted(B["TabV"]), 2 * (max(B["TabX"]) - min(B["TabX"])) + 9,
+                 B["CovMaxN"], B["CovMaxN"], sorted(B["CovDiag"]), -B["CovShift"], B["CovOffN"] - B["CovShift"],
+                 len(opts["reps"]), ", ".join(opts["reps"]), len(opts["lats"]), sum(1 for l in opts["lats"] if l["big"]),
+                 "every row of the design" if ctx.quick else "the full product representation x representation x lattice", len(sj)))
     ctx.exhaustive = True
     ctx.note(bounds={k: sorted(v) if isinstance(v, set) else v for k, v in B.items()}, exported_cases=nkinds,
-             records=len(recs), seeded_records=len(rrecs))
+             records=len(recs), seeded_records=len(rrecs), census={k: v for k, v in sorted(cen.items())},
+             distinct_op_argument_representation_lattice_combinations=len(pairs))
     ctx.assumptions = [
         "dyadic lattice: data (x+off)*2^k, weights w*2^j; expected values are exact rationals with denominator <= 2^20",
         "real-valued outputs are compared 'to rounding': 16 ulp (4 roundings x 4 ulp) of the operand scale, by snapping the observed "
         "float to the nearest rational with denominator <= 2^20 (vh/ratproj.py)",
-        "sigma clipping: points exactly on the nsig*sigma boundary (incl. zero deviation) may be kept or dropped; when nothing "
-        "survives a round the current subset (or the empty set) is accepted as the result",
+        "large-offset lattices (|off| 10^8..2^40 lattice units) and float32 input: value-type outputs within 16 ulp (of binary64, "
+        "resp. float32) of the operand scale, OFFSET INCLUDED; deviation-type outputs (std, err) within the same absolute tolerance on "
+        "the deviation itself; recorded as the nearest candidate rational where the tolerance interval isolates one, else as an "
+        "interval (rounded outward to 1/256 or coarser) that must contain the exact expectation",
+        "sigma clipping: points exactly on the nsig*sigma boundary (incl. zero deviation) may be kept or dropped; on large-offset "
+        "lattices / float32 data also points within tol*(1+nsig) of it, tol = 16 ulp of the operand scale (mean and deviation are "
+        "themselves known only to rounding); when nothing survives a round the current subset (or the empty set) is accepted",
         "weighted sigma_clip / get_stats error: either documented wmom convention accepted; wmom moments with inputmean: about the "
         "supplied or the weighted mean accepted",
+        "interplin on large-offset lattices: operand scale of the result = max|v| + max|slope| * (max|x|,|u| + span), offsets included",
+        "cov2cor / cor2cov take arrays (a python list has no .shape): list representation not used for matrices; unsigned only for "
+        "non-negative matrices / lattices",
         "inputmean given as an [ndim] array, boxcar_average and all-zero weights are outside the statement and not exercised",
     ]
     ctx.trusted_base = ctx.trusted_base + ["fractions.Fraction arithmetic and Fraction.limit_denominator in the float->lattice projection"]
 
 
 def selftest(ctx, recs):
-    import copy
     saved = ctx.traces
     picks = {}
     for r in recs:
-        if r["op"] not in picks and all(u["o"]["err"] == "none" for u in r["runs"]):
-            if r["op"] == "clip" and len(r["runs"][-1]["o"]["steps"][-1]) in (0, len(r["c"]["x"])):
+        if not all(u["o"]["err"] == "none" for u in r["runs"]):
+            continue
+        last = r["runs"][-1]["o"]
+        keys = [r["op"]]
+        if r["op"] == "clip":
+            if len(last["steps"][-1]) in (0, len(r["c"]["x"])):
                 continue
-            picks[r["op"]] = r
+            if last["var"]["k"] == "ivl":
+                keys.append("clip_interval")
+        if r["op"] == "wmom" and last["var"][0]["k"] == "ivl":
+            keys.append("wmom_interval")
+        for key in keys:
+            picks.setdefault(key, r)
+
+    def bump(o):
+        if o["k"] == "ivl":           # shift the recorded interval by 3 lattice units
+            return dict(o, n=o["n"] + 3 * o["K"], d=o["d"] + 3 * o["K"])
+        return dict(o, n=o["n"] + 1)
     probes, expect_reject = [], set()
-    for n, (op, r) in enumerate(sorted(picks.items())):
+    for n, (key, r) in enumerate(sorted(picks.items())):
+        op = r["op"]
         good = {"id": 2 * n + 1, "op": op, "c": r["c"], "runs": [{"p": u["p"], "o": u["o"]} for u in r["runs"]]}
         bad = copy.deepcopy(good)
         bad["id"] = 2 * n + 2
         o = bad["runs"][-1]["o"]
-        if op == "wmom":
-            o["mean"][0] = dict(o["mean"][0], n=o["mean"][0]["n"] + 1)
-        elif op == "wmedian":
-            o["val"] = dict(o["val"], n=o["val"]["n"] + 1)
-        elif op == "clip":
+        if key == "wmom":
+            o["mean"][0] = bump(o["mean"][0])
+        elif key == "wmom_interval":
+            o["var"][0] = bump(o["var"][0])
+        elif key == "wmedian":
+            o["val"] = bump(o["val"])
+        elif key == "clip":
             o["steps"][-1] = o["steps"][0]            # claims nothing was clipped
-        elif op == "interp":
+        elif key == "clip_interval":
+            o["var"] = bump(o["var"])
+        elif key == "interp":
             o["vals"][0][0] = dict(o["vals"][0][0], k="off")
-        elif op == "gstats":
-            o["max"][0] = dict(o["max"][0], n=o["max"][0]["n"] + 1)
-        elif op == "cov":
-            o["back"][0][0] = dict(o["back"][0][0], n=o["back"][0][0]["n"] + 1)
+        elif key == "gstats":
+            o["max"][0] = bump(o["max"][0])
+        elif key == "cov":
+            o["back"][0][0] = bump(o["back"][0][0])
         probes += [good, bad]
         expect_reject.add(bad["id"])
-    if len(picks) != len(EXEC) and not ctx.violations:
+    if len(picks) != len(EXEC) + 2 and not ctx.violations:
         # (on a tree that breaks an operation every record of it may be rejected: its probe is then skipped)
         raise MachineryError("self-test: no clean record for some op: %s" % sorted(picks))
     rej = tracecheck.validate(ctx, "StatsTrace.tla", probes, what="self-test: corrupted records rejected", workers=1)
@@ -568,6 +926,6 @@ def selftest(ctx, recs):
 
 
 def replay(ctx, case):
-    rec = execute((1, case["op"], case["c"], case["ps"], case.get("conc", 0)))
+    rec = execute((1, case["op"], case["c"], case["ps"]))
     print("replay observed:", [(u["p"], u["o"], u["raw"]) for u in rec["runs"]])
     judge(ctx, [rec], "replay")
